@@ -161,18 +161,70 @@ def _x_cfuncdef(self, cy):
     return fn
 
 
+def _axis_text(self, ax):
+    def part(x):
+        if x is None or type(x).__name__ == 'NoneNode':
+            return ''
+        v = getattr(x, 'value', None)
+        return str(v) if v is not None else self._type_expr_text(x)
+    if type(ax).__name__ != 'SliceNode':
+        return part(ax)
+    st = part(getattr(ax, 'step', None))
+    return '%s:%s' % (part(getattr(ax, 'start', None)), part(getattr(ax, 'stop', None))) + (':' + st if st else '')
+
+
+def _x_cytype(self, base_type, declarator=None):
+    """The front end's cytype plus
+      * `const T` / `volatile T` (CQualifierTypeNode): the qualifier does not change the values of T; it is
+        recorded as `.const` on the CyType;
+      * typed memoryviews `T[:, :]`, `const T[:, ::1]` (MemoryViewSliceTypeNode): a buffer type (element type,
+        ndim = number of axes) with `.memview = True`, `.const` (element type const-qualified: the buffer is
+        acquired WITHOUT PyBUF_WRITABLE; a non-const slice requests a writable buffer whether or not the function
+        ever stores through it) and `.axes` (the axis specifications as written; an axis with a step, `::1` /
+        `::view.contiguous`, demands contiguity in that dimension);
+      * the `mode=` keyword of the legacy buffer syntax np.ndarray[T, ndim=2, mode='c'] (recorded as `.mode`:
+        'c' / 'fortran' / 'full' refuse every other layout; 'strided', the default, accepts all)."""
+    from ..pyxfront import CyType
+    tn = type(base_type).__name__
+    if tn == 'CQualifierTypeNode' or tn in ('CConstTypeNode', 'CConstOrVolatileTypeNode'):
+        t = self.cytype(base_type.base_type)
+        if getattr(base_type, 'is_const', tn == 'CConstTypeNode'):
+            t.const = True
+            if not t.text.startswith('const '):
+                t.text = 'const ' + t.text
+        return t
+    if tn == 'MemoryViewSliceTypeNode':
+        et = self.cytype(base_type.base_type_node)
+        if et.is_buffer or getattr(et, 'pointer', False):
+            self._unsupported(base_type)
+        elem = et.text[6:] if et.text.startswith('const ') else et.text
+        axes = [_axis_text(self, a) for a in base_type.axes]
+        t = CyType('memoryview', elem=elem, ndim=len(axes), text='%s[%s]' % (et.text, ', '.join(axes)))
+        t.memview, t.const, t.axes = True, bool(getattr(et, 'const', False)), axes
+        return t
+    t = self._base_cytype(base_type, declarator)
+    if tn == 'TemplatedTypeNode' and base_type.keyword_args is not None:
+        for item in base_type.keyword_args.key_value_pairs:
+            if getattr(item.key, 'value', None) == 'mode':
+                t.mode = str(getattr(item.value, 'value', '?'))
+                t.text = t.text[:-1] + ', mode=%r]' % t.mode if t.text.endswith(']') else t.text
+    return t
+
+
 def _adapter_class():
     from .. import pyxfront
 
     class AdapterX(pyxfront._Adapter):
-        pass
+        _base_cytype = pyxfront._Adapter.cytype
+        cytype = _x_cytype
     for name, f in (('s_GlobalNode', _x_global), ('s_NonlocalNode', _x_nonlocal), ('s_CFuncDefNode', _x_cfuncdef)):
         if not hasattr(pyxfront._Adapter, name):          # once promoted, the front end's own adapter is used
             setattr(AdapterX, name, f)
     return AdapterX
 
 
-_EXTRA_NODES = ('GlobalNode', 'NonlocalNode', 'CFuncDefNode')
+_EXTRA_NODES = ('GlobalNode', 'NonlocalNode', 'CFuncDefNode', 'MemoryViewSliceTypeNode', 'CQualifierTypeNode',
+                'CConstTypeNode', 'CConstOrVolatileTypeNode')
 
 
 def parse_pyx_x(path, rel):
@@ -257,6 +309,9 @@ WIDE = {'double', 'np.float64_t', 'np.double_t', 'np.npy_float64', 'np.npy_doubl
 CMATH = {'fabs', 'sqrt', 'pow', 'abs'}
 _NEUTRAL = {'np', 'numpy', 'len', 'int', 'float', 'abs', 'min', 'max', 'sum', 'tuple', 'list', 'bool',
             'True', 'False', 'None', 'range', 'str'}
+# calls that read only the shape of their argument / that return the argument itself or a no-copy view of it
+_SHAPE_READS = {'len', 'np.shape', 'np.ndim', 'np.size', 'numpy.shape', 'numpy.ndim', 'numpy.size'}
+_ALIASING_READS = {'np.asarray', 'np.asanyarray', 'numpy.asarray', 'numpy.asanyarray'}
 ALLOCATORS = {'np.zeros', 'np.empty', 'np.ones', 'numpy.zeros', 'numpy.empty', 'numpy.ones'}
 
 
@@ -1048,6 +1103,164 @@ def _kernel_returns_buffer(mod, kern):
     rs = returns_of(fn)
     return bool(rs) and all(isinstance(r.value, ast.Name) and r.value.id == o and
                             fi.defs_of_use(r.value) == {'PARAM'} for r in rs)
+
+
+# ---------------------------------------------------------------------------
+# D1 (acquisition): the kernel obtains the caller's arrays under a buffer protocol request that every
+# admitted input satisfies
+
+_ANY_LAYOUT_MODES = {None, 'strided', 'full'}
+_MEMVIEW_ATTRS = {'T', 'base', 'shape', 'strides', 'suboffsets', 'ndim', 'itemsize', 'nbytes', 'size', 'copy',
+                  'copy_fortran', 'is_c_contig', 'is_f_contig'}
+
+
+def _raw_kernel_signatures(repo):
+    """{function name: raw FunctionDef} of libdist.pyx parsed with the extended type adapter and NOT
+    normalised: the declared parameter types exactly as written (buffer `mode=`, memoryview axes, const)."""
+    path = os.path.join(repo.root, LD)
+    try:
+        tree = parse_pyx_x(path, LD)
+    except Exception:
+        return {}
+    return {f.name: f for f in tree.body if isinstance(f, ast.FunctionDef)}
+
+
+def _stores_through(fn, name):
+    """'yes' when the function assigns to a cell/slice of `name`, 'maybe' when it hands `name` (or an alias it
+    binds) to something that could, 'no' otherwise."""
+    verdict = 'no'
+    for s in ast.walk(fn):
+        tgs = []
+        if isinstance(s, ast.Assign):
+            tgs = list(s.targets)
+        elif isinstance(s, (ast.AugAssign, ast.AnnAssign)):
+            tgs = [s.target]
+        elif isinstance(s, ast.Delete):
+            tgs = list(s.targets)
+        elif isinstance(s, ast.For):
+            tgs = [s.target]
+        for tg in tgs:
+            for x in ast.walk(tg):
+                if isinstance(x, ast.Subscript) and isinstance(x.ctx, (ast.Store, ast.Del)) and name in names_loaded(x.value):
+                    return 'yes'
+        if isinstance(s, ast.Call):
+            if call_name(s) in _SHAPE_READS:
+                continue
+            if isinstance(s.func, ast.Attribute) and name in names_loaded(s.func.value) and s.func.attr in MUTATING_METHODS:
+                return 'yes'
+            if any(isinstance(a, ast.Name) and a.id == name for a in list(s.args) + [kw.value for kw in s.keywords]):
+                inret = call_name(s) in _ALIASING_READS
+                if not inret:
+                    verdict = 'maybe'
+        if isinstance(s, (ast.Assign, ast.AnnAssign)) and isinstance(getattr(s, 'value', None), ast.AST):
+            v = s.value
+            while isinstance(v, (ast.Subscript, ast.Attribute)):
+                v = v.value
+            if isinstance(v, ast.Name) and v.id == name and not isinstance(s.value, ast.Attribute):
+                verdict = 'maybe'           # an alias / a view of the buffer gets a name
+    return verdict
+
+
+def d1_acquisition(ck, mod, kernels, kernel_of):
+    """Every X / y the preparation step lets through must be ACCEPTED by the kernel's typed parameters: the
+    conversion of the argument to the declared buffer type is a buffer-protocol request, and a request stricter
+    than what the kernel needs raises (ValueError / BufferError) for perfectly valid data.
+      * read-only data (np.load(mmap_mode='r'), flags.writeable = False, np.broadcast_to views, rows of such
+        arrays): the legacy syntax np.ndarray[T, ndim=n] asks for a writable buffer only when the function stores
+        through it; a typed memoryview `T[:, :]` ALWAYS asks for one unless the element type is `const`.  A
+        buffer the kernel only reads must therefore be np.ndarray[...] or `const T[...]`
+        (C13.D1.acquire.read-only);
+      * memory layout: `mode='c'|'fortran'` / a memoryview axis with a step (`::1`) accepts only that contiguity;
+        Fortran-ordered or strided views of the other kind are refused (C13.D1.acquire.layout)."""
+    raw = _raw_kernel_signatures(ck.repo)
+    callers = {}
+    for w, ks in kernel_of.items():
+        for kn in ks:
+            callers.setdefault(kn, []).append(w)
+    n = 0
+    for kern in kernels:
+        nfn = mod.func(kern)
+        fn = raw.get(kern)
+        if fn is None or params(fn) != params(nfn) and len(params(fn)) != len(params(nfn)):
+            fn = nfn
+        ps = params(fn)
+        got = 0
+        for pos, p in enumerate(ps):
+            t = fn.cy_argtypes.get(p)
+            if t is None or not t.is_buffer:
+                continue
+            got += 1
+            # does the argument come straight from the caller of the public entry point?
+            foreign, unknown = [], []
+            for w in callers.get(kern, []):
+                wfn = mod.func(w)
+                wfi = finfo(mod, wfn)
+                for c in calls_in(wfn):
+                    if call_name(c) != kern:
+                        continue
+                    bind = _call_binding(nfn, c)
+                    a = bind.get(params(nfn)[pos]) if bind and pos < len(params(nfn)) else None
+                    ex = Expander(wfi)
+                    e = ex.expand(a) if a is not None else None
+                    if isinstance(e, ast.Name) and e.id in params(wfn) and ex.leaf.get(e.id) and ex.param_only(e.id):
+                        foreign.append((w, e.id))
+                    else:
+                        unknown.append((w, u(a) if a is not None else '?'))
+            written = _stores_through(fn, p)
+            memview = bool(getattr(t, 'memview', False))
+            const = bool(getattr(t, 'const', False))
+            construct = '%s %s' % (t.text, p)
+            # ---- writability request
+            rule = 'C13.D1.acquire.read-only'
+            if not memview or const:
+                ck.ok(rule, mod, nfn, construct, 'parameter %d of %s: %s' % (
+                    pos, kern, 'const memoryview: acquired without PyBUF_WRITABLE' if memview else
+                    'legacy typed buffer: Cython requests a writable buffer only if the function stores through it'))
+            elif written == 'yes':
+                ck.ok(rule, mod, nfn, construct, 'parameter %d of %s is stored through: a writable buffer is what the kernel needs' % (pos, kern))
+            elif written == 'no' and foreign and not unknown:
+                ck.bad(rule, mod, nfn, kern, construct,
+                       'parameter %d of %s is only READ by the kernel but declared as a non-const typed memoryview: Cython '
+                       'acquires it with PyBUF_WRITABLE, so %s raises "buffer source array is read-only" for a read-only '
+                       '`%s` (memory-mapped features opened with mode "r", flags.writeable=False, broadcast views) that the '
+                       'validation step accepts; declare it np.ndarray[...] or `const %s`' % (
+                           pos, kern, '/'.join(sorted({w for w, _ in foreign})), foreign[0][1], t.text))
+            else:
+                ck.missing(rule, 'parameter `%s` of %s is a non-const typed memoryview (requests a writable buffer); %s' % (
+                    construct, kern, 'whether the kernel stores through it is not decided' if written != 'no' else
+                    'what %s pass(es) for it (%s) is not the caller\'s own array' % (
+                        '/'.join(sorted({w for w, _ in unknown})) or 'the entry points', ', '.join(sorted({x for _, x in unknown})) or 'nothing found')))
+            # ---- a typed memoryview is not an ndarray: only the attributes of Cython's memoryview object exist
+            if memview and not _rebinds(finfo(mod, nfn), p):
+                for x in ast.walk(fn):
+                    if isinstance(x, ast.Attribute) and isinstance(x.value, ast.Name) and x.value.id == p \
+                            and x.attr not in _MEMVIEW_ATTRS:
+                        ck.bad('C13.D1.acquire.memview-attr', mod, nfn, kern, '%s.%s' % (p, x.attr),
+                               '`%s` is declared as the typed memoryview %s; Cython\'s memoryview object has no attribute '
+                               '`%s` (that is an ndarray method): the kernel fails on every call (wrap it in np.asarray first)'
+                               % (p, t.text, x.attr))
+            # ---- layout request
+            rule = 'C13.D1.acquire.layout'
+            strict = []
+            if memview:
+                strict = [ax for ax in getattr(t, 'axes', ()) if ax.count(':') >= 2 and ax.split(':')[2].strip()]
+                if any(':' not in ax for ax in getattr(t, 'axes', ())):
+                    strict.append('?')
+            elif getattr(t, 'mode', None) not in _ANY_LAYOUT_MODES:
+                strict = ['mode=%r' % t.mode]
+            if not strict:
+                ck.ok(rule, mod, nfn, construct, 'parameter %d of %s accepts every strided layout' % (pos, kern))
+            elif foreign and not unknown and written == 'no' and '?' not in strict:
+                ck.bad(rule, mod, nfn, kern, construct,
+                       'parameter %d of %s demands a contiguous layout (%s): %s raises for a `%s` of any other layout '
+                       '(Fortran-/C-ordered of the other kind, column slices, strided views) that the validation step '
+                       'accepts; the kernels must take generic strided buffers' % (
+                           pos, kern, ', '.join(strict), '/'.join(sorted({w for w, _ in foreign})), foreign[0][1]))
+            else:
+                ck.missing(rule, 'parameter `%s` of %s restricts the memory layout (%s); whether every array that reaches it '
+                           'satisfies that is not decided' % (construct, kern, ', '.join(strict)))
+        n += min(got, 1)
+    ck.floor('C13.D1.acquire', n, 3, 'kernels with typed-buffer parameters')
 
 
 def d4_wrappers(ck, mod, kernel_of, preps):
@@ -2045,7 +2258,11 @@ def d5_formulas(ck, mod, fused, kernel_of):
             direct = [a for a in list(c.args) + [kw.value for kw in c.keywords] if isinstance(a, ast.Name) and a.id == out]
             meth = isinstance(c.func, ast.Attribute) and isinstance(c.func.value, ast.Name) and c.func.value.id == out \
                 and c.func.attr in MUTATING_METHODS
-            if (direct and call_name(c) != 'len') or meth:
+            if direct and not meth and call_name(c) in _ALIASING_READS and len(c.args) == 1 and not c.keywords \
+                    and any(c is x for r in returns_of(fn) if r.value is not None for x in ast.walk(r.value)):
+                continue    # a no-copy array view of the buffer made inside the returned expression: nothing in the
+                            # kernel can store through it (what the callers do with the kernel's result is D4)
+            if (direct and call_name(c) not in _SHAPE_READS) or meth:
                 opaque_store = True
                 ck.missing(rule, '%s: the output buffer is handed to `%s`; its effect on the cells is not analysed' % (kern, u(c)))
         for s in walk_local(fn):
@@ -3058,6 +3275,7 @@ def check(ck):
     ck.floor('C13.D1.bounds', nb, 12, 'bounds obligations (4 buffer dimensions in each of 3 kernels)')
     ck.floor('C13.D2.prange', np_, 3, 'kernels with a prange loop')
     ck.floor('C13.D3.zero-first', nz, 3, 'kernels with an accumulation into the output buffer')
+    d1_acquisition(ck, mod, kernels, kernel_of)
     d4_wrappers(ck, mod, kernel_of, preps)
     d5_formulas(ck, mod5, fused, kernel_of)
     raw_compare_scan(ck, mod, kernels, fused)
